@@ -75,6 +75,11 @@ def run_program(prog, yield_hook=None):
                 s = SimStream(tty=True)
                 qr.print_ascii(out=s, invert=step[1] == "invert", tty=step[1] == "tty")
                 res = s.text()
+            elif kind == "shortcut":
+                img = qrcode.make(dec_payload(step[1]), **dict(step[2]))
+                b = io.BytesIO()
+                img.save(b)
+                res = b.getvalue()
             elif kind == "print_tty":
                 s = SimStream(tty=True)
                 qr.print_tty(out=s)
@@ -968,6 +973,10 @@ def gen_program(rng, shared_versions, tier, second=False):
             prog.append(["image", "pil", "save"])
         else:
             prog.append(["image", "styled", "save"])
+    if not second and rng.random() < 0.08:
+        # the module-level shortcut (own throw-away object, default factory)
+        prog.append(["shortcut", enc_payload(rng.choice(PAYLOADS[:4])),
+                     [["version", v], ["mask_pattern", rng.randrange(8)], ["box_size", 1]]])
     if not second and rng.random() < 0.15:
         prog += gen_program(rng, shared_versions, tier, second=True)   # a second object
     return prog
